@@ -62,6 +62,13 @@ C = [
     "x < y",
     "0.5 <= x <= y",
     "x + y == 2 * y",
+    # chains whose links use different operators (half-open windows are decided exactly at the boundary)
+    "0 <= x < 2",
+    "0.5 < x <= y",
+    "y > x >= 0.5",
+    "x == y < 2",
+    "1 <= x != y",
+    "0 < x < y <= 2",
 ]
 
 HELPER_SAME = '''
